@@ -7,6 +7,8 @@ import sys
 HERE = os.path.dirname(os.path.dirname(os.path.abspath(__file__)))
 sys.path.insert(0, HERE)
 
+TECH = {'C01': 'runtime contract monitors (icontract / re-entrant wrapper) on every call of permute_systems, swap, permutation_operator against a NumPy tensor-axis reference model; unique-id arrays; product-form, inverse, row-only metamorphic oracles; repository suite under contract (thorough)', 'C02': 'runtime contract monitor on every partial_trace call (einsum reference model), composition / product / linearity oracles, cvxpy-Variable value path, repository suite under contract (thorough)', 'C03': 'runtime contract monitors on partial_transpose and realignment (axis-exchange reference model, arguments snapshotted before the call), involution / complement / Frobenius oracles, cvxpy value path, suite under contract (thorough)', 'C04': 'reference-model monitors (explicit Kraus loop, Choi from action) over all representation forms and conversion chains; contracts on internal apply_channel / kraus_to_choi calls; mixed-dtype operator families', 'C05': "adjoint-identity and Stinespring-marginal monitors evaluated through the reference application (never the library's apply_channel); rejection monitors", 'C06': 'ground-truth-by-construction predicate monitors with margins across all accepted forms; closed-formula monitors for built-in channels incl. parameter-range rejections; contracts on internal calls', 'C07': 'brute-force reference for the classical value, one-sided ordering monitors on SDP values incl. explicit quantum strategies, relabelling/padding disguises with value invariance, history monitor over call orders with state digests', 'C08': "certificate monitor (unit vectors + repaired dual point, NumPy-verified) for the Tsirelson optimum, NPA level-1 equality, exact 2-2-2 quantum maximum by Jordan's lemma, affine outcome-relabelling relation", 'C09': 'brute-force unentangled value, ordering monitors, answer-relabelling disguises with invariance, strong-duality and explicit-feasible-point monitors for hedging, closed forms and repetition consistency for cloning', 'C10': 'primal/dual certificate monitor: returned POVM validity and attained value, dual-feasible operator repaired by measured infeasibility (NumPy only); closed forms, invariances, unambiguous-discrimination relations', 'C11': 'certificate monitor for minimum-error exclusion (attained value, repaired dual-feasible lower bound), closed forms, antidistinguishability anchors (trine, BB84, PBR) and certified-positive negatives', 'C12': "ordering monitors between explicit product measurements, the PPT value and the certified global optimum; cross-solver level-1 equality; before/after digests (element identities) of the caller's list", 'C13': 'documented formulas recomputed by Hermitian eigendecompositions, relation monitors on library values, rejection monitors, SDP value monitor for the fidelity of separability', 'C14': 'planted-Schmidt-coefficient closed forms, local-unitary invariance monitors, product-test ground truth with margins, S(k)-norm bracket against explicit Schmidt-rank-k vectors', 'C15': 'ground-truth-by-construction verdict monitors with margins; sys.monitoring attribution of every is_separable verdict to its return statement; crash classification by raising line', 'C16': 'predicate table: exact positives, margin negatives, property-preserving transformations; helper identities against NumPy', 'C17': 'defining-identity monitors for every constructor over parameter grids incl. end points; reference partial traces / transposes / permutations; Haar-unitary invariance sampling', 'C18': 'exhaustive enumeration of the finite (d, p), permutation, multiset and matching spaces against model permutation operators and itertools', 'C19': 'kind monitors (model checks), offline-checked history of interleaved seeded / unseeded calls with global-RNG digests, POVM / Born-rule monitors, P_opt bracket from the C10 certificate', 'C20': 'closed forms (unitary pairs, replacement channels), explicit-input lower bounds, independent SDP of the definition, return-site attribution of the cb trace norm'}
+
 CHECKS = {
     # id: (technique, level text, level note, design ref)
 }
@@ -41,13 +43,14 @@ def main():
             "level_claimed": {
                 "category": "exploration",
                 "text": getattr(mod, "LEVEL_TEXT", "") or (
-                    "Runtime monitoring: the real functions are executed on generated hostile inputs while contract, "
-                    "reference-model, certificate and history monitors observe every call; the property held on the "
-                    "executions observed (counts and input classes in the evidence), it is not proved for all inputs."),
+                    "Exploration by runtime monitoring: the real functions are executed on generated hostile inputs (" + getattr(mod, "RULE", "")[:400] + ") while the monitors "
+                    "named under 'technique' observe every call. The verdict is 'held on the executions observed' (evaluation counts, distinct non-trivial "
+                    "input classes, per-monitor counts and largest deviations are in the evidence); it is not a proof for all inputs. A deciding monitor that "
+                    "was never reached makes the run inconclusive (exit 2), never held."),
                 "design_ref": f"DESIGN.md section 4, {pid}",
             },
             "level_note": "; ".join(getattr(mod, "ASSUMPTIONS", [])) or "see DESIGN.md",
-            "technique": getattr(mod, "TECHNIQUE", "runtime monitoring: reference-model and contract monitors over generated workloads"),
+            "technique": "runtime monitoring: " + TECH.get(pid, "reference-model and contract monitors over generated workloads"),
         })
     not_app = []
     for i in range(1, 21):
